@@ -98,7 +98,14 @@ func (Prop) Describe(t vp.Tier) vp.Description {
 			"strace 6.1 with --seccomp-bpf reports every traced call of every thread and child process in order; the positive controls of each batch (open, create, remove, rename, popen, searchpath, mkdir, chmod, truncate, rewrite, connect) confirm this for the run, a missing control makes the run BROKEN",
 			"held on the tuples sampled, not on all argument values",
 		},
-		Floor: map[vp.Tier]int64{vp.Quick: 60000, vp.Thorough: 500000}[t],
+		Floor: map[vp.Tier]int64{vp.Quick: 40000, vp.Thorough: 350000}[t],
+		Extra: map[string]interface{}{
+			"flag_sets":        16,
+			"spelling_classes": spellClassNames,
+			"spellings":        spellClasses,
+			"recipes":          len(recipes),
+			"strace":           "strace -f --seccomp-bpf -e " + straceTrace + " -e signal=none",
+		},
 	}
 }
 
